@@ -95,6 +95,43 @@ static bool retractChecker(Rng& r, const Pos& after, Pos& before, Mv& mv) {
     return true;
 }
 
+// An en passant capture that removes both pawns from the rank and so uncovers a rook/queen check along it; other men at random.
+// The caller filters for "that capture is mate". Both pawn orders (capturing pawn nearer to the rook or to the king), both colours.
+static bool epRankDiscovery(Rng& r, Pos& out) {
+    Pos p; bool w = r.chance(50);                 // w: white captures
+    int rk = w ? 4 : 3;                           // the rank of both pawns
+    int files[4]; for (int i = 0; i < 4; i++) files[i] = 0;
+    // choose 4 increasing files: slider, pawn, pawn (adjacent), king; then maybe mirror
+    int a = r.below(4), b = a + 1 + r.below(3); if (b > 5) return false;
+    int c = b + 1, k = c + 1 + r.below(7 - c); if (k > 7) return false;
+    bool mirror = r.chance(50);
+    auto F = [&](int f) { return mirror ? 7 - f : f; };
+    bool capturerNearSlider = r.chance(50);
+    int own = w ? WP : BP, opp = w ? BP : WP;
+    p.b[sq(F(a), rk)] = (w ? WK : BK) + (r.chance(50) ? K_R : K_Q);
+    p.b[sq(F(b), rk)] = capturerNearSlider ? own : opp;
+    p.b[sq(F(c), rk)] = capturerNearSlider ? opp : own;
+    p.b[sq(F(k), rk)] = w ? BK : WK;
+    int oppFile = F(capturerNearSlider ? c : b);
+    p.ep = sq(oppFile, w ? 5 : 2);
+    if (p.b[p.ep] || p.b[sq(oppFile, w ? 6 : 1)]) return false;
+    // own king somewhere, then helpers that take the king's flight squares
+    for (int t = 0; t < 50; t++) { int s = r.below(64); if (!p.b[s] && s != p.ep && s != sq(oppFile, w ? 6 : 1)) { p.b[s] = w ? WK : BK; break; } }
+    int n = r.range(1, 5);
+    for (int i = 0; i < n; i++) {
+        int ks = sq(F(k), rk);
+        int s = sq(std::min(7, std::max(0, fileOf(ks) + r.range(-2, 2))), std::min(7, std::max(0, rankOf(ks) + r.range(-2, 2))));
+        if (p.b[s] || s == p.ep || s == sq(oppFile, w ? 6 : 1) || rankOf(s) == rk) continue;
+        int kind = (const int[]){K_Q, K_R, K_B, K_N, K_P, K_P}[r.below(6)];
+        if (kind == K_P && (rankOf(s) == 0 || rankOf(s) == 7)) kind = K_N;
+        bool mine = r.chance(60);
+        p.b[s] = ((mine == w) ? WK : BK) + kind;
+    }
+    p.wtm = w; p.hmc = 0; p.fullMove = 20;
+    if (!plausible(p) || !posgen::countsOk(p) || !epLegal(p)) return false;
+    out = p; return true;
+}
+
 static Pos attackPos(Rng& r) {
     // lone or exposed king vs heavy pieces nearby
     for (;;) {
@@ -294,7 +331,17 @@ int main(int argc, char** argv) {
         while (done < n) {
             Pos p;
             int k = r.below(10);
-            if (k < 5) p = attackPos(r);
+            if (r.chance(12)) {
+                // constructed: the mate is an e.p. capture that uncovers a rank check through both vanished pawns
+                bool found = false;
+                for (int t = 0; t < 4000 && !found; t++) {
+                    if (!epRankDiscovery(r, p)) continue;
+                    std::vector<Mv> mm; mateIn1Moves(p, mm);
+                    for (auto& m : mm) if (isEnPassant(p, m)) found = true;
+                }
+                if (!found) continue;
+            }
+            else if (k < 5) p = attackPos(r);
             else if (k < 8) p = posgen::synthetic(r, r.below(posgen::T_NTEMPLATES));
             else { posgen::Game g = posgen::randomGame(r, tricky[r.below((int)tricky.size())], r.range(4, 100), posgen::TACTICAL); p = g.pos.back(); if (!epLegal(p)) p.ep = -1; }
             std::vector<Mv> m1; mateIn1Moves(p, m1);
